@@ -339,6 +339,13 @@ pub fn special_ext_tasks() -> Vec<ExtTask> {
         mk("spec: forall X (out(X) <-> in(X) and not aux(X)). spec: forall X (aux(X) <-> in(X) and X > 1).", true, "aux(X) :- in(X), X > 1. out(X) :- in(X), not aux(X).", "input: in/1. output: out/1.", ""),
         mk("spec: forall X (out(X) <-> in(X) and not aux(X)). spec: forall X (aux(X) <-> in(X) and X > 1).", true, "aux(X) :- in(X), X <= 0. out(X) :- in(X), not aux(X).", "input: in/1. output: out/1.", ""),
         mk("spec: forall X (out(X) <-> in(X) and not aux(X)). spec: forall X (aux(X) <-> in(X) and X > 1).", true, "out(X) :- in(X), X <= 1.", "input: in/1. output: out/1.", ""),
+        // a placeholder that occurs only as an operand of an arithmetic term / interval (left, right, under unary minus)
+        mk("out(X) :- in(X), X < n+1.", false, "out(X) :- in(X), n+1 > X.", "input: in/1. output: out/1. input: n -> integer.", ""),
+        mk("out(X) :- in(X), X = 2*n.", false, "out(X) :- in(X), X = n*2.", "input: in/1. output: out/1. input: n -> integer.", ""),
+        mk("out(X) :- in(X), X > -n.", false, "out(X) :- in(X), 0-n < X.", "input: in/1. output: out/1. input: n -> integer.", ""),
+        mk("out(X) :- in(X), X = 1..n+1.", false, "out(X) :- in(X), X = 1..1+n.", "input: in/1. output: out/1. input: n -> integer.", ""),
+        mk("out(n+1).", false, "out(1+n).", "output: out/1. input: n -> integer.", ""),
+        mk("spec: forall X (out(X) <-> in(X) and X < n$i + m$i).", true, "out(X) :- in(X), X < n+m.", "input: in/1. output: out/1. input: n -> integer. input: m -> integer.", "lemma: forall X (out(X) -> X < m$i + n$i)."),
         // one symbol at several arities with different visibility (private/public/input), clashing private copies on both sides
         mk("q(X) :- in(X). q(X,X) :- q(X).", false, "q(X) :- in(X). q(X,X) :- q(X).", "input: in/1. output: q/2.", ""),
         mk("q(X) :- in(X), X > 0. q(X,X) :- q(X).", false, "q(X) :- in(X). q(X,X) :- q(X), X > 0.", "input: in/1. output: q/2.", ""),
